@@ -8,6 +8,7 @@ import Grevm.Driver.Sched
 import Grevm.Driver.Repr
 import Grevm.Driver.Small
 import Grevm.Driver.Reserve
+import Grevm.Driver.CacheConf
 
 open Grevm Grevm.Driver
 
@@ -103,6 +104,7 @@ def runSession (lines : List String) : String :=
       | ["repr"] => ReprConf.replayRepr rest
       | ["guard-table"] => Small.guardTable
       | ["reserve"] => ReserveConf.replayReserve rest
+      | "cache" :: hd => CacheConf.replayCache hd rest
       | ["kernel", "wait"] => Small.replayWait rest
       | ["once", k] => Small.replayOnce (k.toNat?.getD 0) rest
       | ["sched", n] => SchedConf.replaySched (n.toNat?.getD 0) rest
